@@ -47,16 +47,21 @@ CheckSimplify(e) ==
 
 \* Polygon: every ring is simplified on its own; rings that collapse disappear (the shell collapsing empties the
 \* polygon); the result is valid or an error.  The kept rings must match original rings in order.
+\* A ring may only disappear if it collapses: Ramer-Douglas-Peucker on a closed ring keeps the start vertex and, if any
+\* vertex is farther than t from it, the farthest one; the ring degenerates (fewer than four points) only when every
+\* vertex lies within t of the line through two of its vertices (or of one vertex). A ring that is not thin in this
+\* sense for any pair of its vertices cannot legitimately vanish.
+CollapseOK(ring, tn, td) == \E a \in 1..Len(ring), b \in 1..Len(ring) : \A m \in 1..Len(ring) : WithinLine(ring[m], ring[a], ring[b], tn, td)
 RECURSIVE RingsMatch(_,_,_,_,_,_)
 RingsMatch(orig, kept, i, j, tn, td) ==
-  IF j > Len(kept) THEN TRUE
-  ELSE IF i > Len(orig) THEN FALSE
-  ELSE (SimplifyOK(orig[i], kept[j], tn, td) /\ RingsMatch(orig, kept, i+1, j+1, tn, td)) \/ (i > 1 /\ RingsMatch(orig, kept, i+1, j, tn, td))
+  IF i > Len(orig) THEN j > Len(kept)
+  ELSE (j <= Len(kept) /\ SimplifyOK(orig[i], kept[j], tn, td) /\ RingsMatch(orig, kept, i+1, j+1, tn, td))
+       \/ (i > 1 /\ CollapseOK(orig[i], tn, td) /\ RingsMatch(orig, kept, i+1, j, tn, td))
 CheckSimplifyPoly(e) ==
   IF e.err = "skip-invalid-input" THEN "skip:invalid-input"
   ELSE IF e.err # "" THEN "ok"
   ELSE IF ~e.valid THEN "simplify-result-invalid"
-  ELSE IF Len(e.keptrings) = 0 THEN "ok"
+  ELSE IF Len(e.keptrings) = 0 THEN (IF Len(e.rings) = 0 \/ CollapseOK(e.rings[1], e.tn, e.td) THEN "ok" ELSE "simplify-polygon-vanished")
   ELSE IF ~RingsMatch(e.rings, e.keptrings, 1, 1, e.tn, e.td) THEN "simplify-polygon-contract"
   ELSE "ok"
 
